@@ -12,7 +12,7 @@ KINDS = ['equal', 'approx', 'student', 'bonferroni', 'holm', 'metadata', 'stats_
 SHAPES = {'1d': (3,), '2d': (2, 2), '2dF': (2, 2), 'scalar': ()}
 
 
-def build_result(ex, kind, shape_name='1d', nds=1, named=True, tag=''):
+def build_result(ex, kind, shape_name='1d', nds=1, named=True, tag='', with_nan=False):
     """-> (result, info) where info['failing'] = per dataset list of failing flat bin indices (data kinds)"""
     from collections import OrderedDict
     from valjean.eponine.dataset import Dataset
@@ -42,6 +42,8 @@ def build_result(ex, kind, shape_name='1d', nds=1, named=True, tag=''):
             v = np.array(ref, dtype=float, copy=True).reshape(-1) if shape else np.array([float(ref)])
             for i in fl:
                 v[i] += 10.0 + d
+            if with_nan and d == 0 and fl and ex.flag(f'{tag}nan-in-first-failing-bin'):
+                v[fl[0]] = np.nan          # a NaN cell fails every comparison: the failing pattern stays the same
             v = v.reshape(shape) if shape else np.float64(v[0])
             if shape and fortran:
                 v = np.asfortranarray(v)
@@ -74,7 +76,13 @@ def build_result(ex, kind, shape_name='1d', nds=1, named=True, tag=''):
         from valjean.gavroche.diagnostics.metadata import TestMetadata
         bad = [ex.bool(f'{tag}mdbad{i}') for i in range(2)]
         badc = [bool(b) for b in bad]
-        md = {'s0': {'a': 1, 'b': 2}, 's1': {'a': 1 + (5 if badc[0] else 0), 'b': 2 + (5 if badc[1] else 0)}}
+        flavour = ex.choice(3, f'{tag}mdflavour')      # numbers, or free text with a trailing / leading blank
+        if flavour == 0:
+            md = {'s0': {'a': 1, 'b': 2}, 's1': {'a': 1 + (5 if badc[0] else 0), 'b': 2 + (5 if badc[1] else 0)}}
+        else:
+            pad = (lambda x: x + ' ') if flavour == 1 else (lambda x: ' ' + x)
+            md = {'s0': {'a': pad('JEFF-3.1.1'), 'b': pad('v 1')},
+                  's1': {'a': pad('ENDF-B7') if badc[0] else pad('JEFF-3.1.1'), 'b': pad('v 2') if badc[1] else pad('v 1')}}
         info.update(expected_verdict=not any(badc), bad_keys=[k for k, b in zip('ab', badc) if b])
         return TestMetadata(md, name='t-md').evaluate(), info
     if kind == 'stats_tasks':
